@@ -507,6 +507,22 @@ def handle (line : String) : String :=
       let modi := outs.any (fun o => o.endsWith "!MODIFIED")
       if bad then "SPEC C04:same-input-different-result-within-a-sequence"
       else if modi then "SPEC C04:input-buffer-modified" else "OK"
+    | ["jcap", cap, q, hx] =>
+      match parseNat cap, unhex hx with
+      | some c, some raw =>
+        let r := Json.parseWith Json.PState.fresh c (Json.queriesOf q) raw
+        let m := s!"{r.parsed} {r.inspected} {r.firstToken} {r.querySatisfied}"
+        if m == goRes then "OK" else s!"DIFF jcap model={m}"
+      | _, _ => "BAD args"
+    | ["bomb", _shape, depth, _lim] =>
+      match goRes.splitOn " " with
+      | ["survived", res] =>
+        let d := depth.toNat?.getD 0
+        let mime := (unhex res).getD []
+        let jsonFamily := hasPrefix mime (ofString "application/json") || hasPrefix mime (ofString "application/geo+json") ||
+          hasPrefix mime (ofString "model/gltf+json") || hasPrefix mime (ofString "application/x-ndjson")
+        if d > Gen.Json.maxRecursion + 1 && jsonFamily then "SPEC C16:nesting-beyond-the-cap-reported-as-json" else "OK"
+      | _ => "SPEC C16:detection-did-not-survive-the-bomb(" ++ goRes ++ ")"
     | ["treeeq"] =>
       let m := String.intercalate " " (dumpTree Gen.builtin)
       if m == goRes then "OK" else s!"DIFF tree model={m}"
